@@ -11,11 +11,32 @@ def load_jsonl(p):
     return [json.loads(l) for l in open(p)] if os.path.exists(p) else []
 
 
+def _coqc_with_g16(ctx):
+    """G01's request pipeline imports G16.Model (C16's rule model): every coqc call needs -Q ../g16 G16."""
+    lib = os.path.join(common.VERIF, "coq", "lib")
+    g16 = os.path.join(common.VERIF, "coq", "g16")
+    g01 = os.path.join(common.VERIF, "coq", GROUP)
+
+    def coqc(group, vfile, cwd=None, timeout=600):
+        return common.sh(["coqc", "-Q", lib, "FwdLib", "-Q", g16, "G16", "-Q", g01, "G01", vfile], cwd=cwd or g01, timeout=timeout)
+    ctx.coqc = coqc
+
+
 def prepare(ctx, prop_file, own_files):
     """translator -> full build -> forbidden words -> property file.
     own_files: the .v files this property depends on (failures elsewhere in the group are not its business).
     Returns (info, ob_failed)."""
     ob_failed = []
+    _coqc_with_g16(ctx)
+    # G16.Model's compiled form depends on g16's Tables.v (shape flags of header/header.go): regenerate and build it for
+    # the tree under test, holding g16's lock so that a C16 check cannot interleave
+    with common.Lock("group-g16"):
+        ok16, msg16 = ctx.tables("g16")
+        if not ok16:
+            ob_failed.append("translator(gen/tables g16, imported rule model): " + msg16)
+        ok16, log16, failed16 = ctx.coq_make("g16")
+        if "Model.v" in failed16 or "Tables.v" in failed16:
+            ob_failed.append("coq/g16 (imported rule model) does not build: %s" % log16[-600:])
     ok, msg = ctx.tables(GROUP)
     if not ok:
         ctx.log("tables:", msg)
